@@ -438,11 +438,17 @@ pub fn gen_cell_text(r: &mut Rng, big_ok: bool) -> Cell {
             let (s, us) = gen_dur(r);
             Cell::Dur(s, us)
         }
-        19 | 20 => Cell::Null(r.below(7) as u8),
+        19 => Cell::Null(r.below(7) as u8),
+        20 => match r.below(4) {
+            0 => Cell::Ref(Box::new(Cell::Null(1))),
+            1 => Cell::Ref(Box::new(Cell::I64(int_edge(r, i64::MIN as i128, i64::MAX as i128) as i64))),
+            2 => Cell::Ref(Box::new(Cell::Some(Box::new(Cell::I64(r.next() as i64))))),
+            _ => Cell::Null(r.below(7) as u8),
+        },
         21 => {
             let inner = loop {
                 let c = gen_cell_text(r, false);
-                if !matches!(c, Cell::Null(_) | Cell::Some(_) | Cell::Myc(MycV::Null)) {
+                if !matches!(c, Cell::Null(_) | Cell::Some(_) | Cell::Ref(_) | Cell::Myc(MycV::Null)) {
                     break c;
                 }
             };
@@ -611,18 +617,27 @@ pub fn gen_cell_for_col(r: &mut Rng, coltype: u8, flags: u16, big_ok: bool) -> C
 pub fn gen_cell_bin(r: &mut Rng, col: &ColSpec, big_ok: bool) -> Cell {
     let not_null = col.flags & 0x01 != 0;
     if !not_null && r.chance(1, 6) {
-        return if r.chance(1, 4) {
-            Cell::Myc(MycV::Null)
-        } else {
-            Cell::Null(r.below(6) as u8)
+        return match r.below(8) {
+            0 | 1 => Cell::Myc(MycV::Null),
+            2 => Cell::Ref(Box::new(Cell::Null(1))),
+            _ => Cell::Null(r.below(6) as u8),
         };
     }
     let c = gen_cell_for_col(r, col.coltype, col.flags, big_ok);
-    if r.chance(1, 10) && !matches!(c, Cell::Myc(_)) {
+    if r.chance(1, 10) && !matches!(c, Cell::Myc(_) | Cell::Ref(_)) {
         // Some(..) normalises &str/&[u8] to owned types in the shim
         return Cell::Some(Box::new(c));
     }
     c
+}
+
+pub fn is_null_cell(c: &Cell) -> bool {
+    match c {
+        Cell::Null(_) | Cell::Myc(MycV::Null) => true,
+        Cell::Ref(inner) => !matches!(**inner, Cell::I64(_) | Cell::VecBytes(_))
+            && !matches!(&**inner, Cell::Some(x) if matches!(**x, Cell::I64(_))),
+        _ => false,
+    }
 }
 
 pub fn gen_name(r: &mut Rng) -> Blob {
